@@ -8,13 +8,19 @@
     recomputed, opaque data byte for byte, records in order.  No Panic outcome.  Also: the header is
     kept (C05_header_kept) and name copies only append (C05_name_copy_appends).
 
-    Not covered by a theorem: that this output is accepted by the parser again, is a fixed point of
-    decompression, and the translation of record boundaries ([uncompress_with_previous_offset] at
-    offsets other than 12); these are decided on every run by exact comparison with an independent
-    canonical encoder at every record boundary of every generated packet. *)
+    Proved as well (C05_roundtrip): that output [q] is accepted by the parser again, reads
+    declaratively as the same question and the same records (labels, types, classes, TTLs, data
+    shapes: [map plain_record] of the two readings coincide), and is a fixed point:
+    [uncompress q = q].  The reading of a packet is unique (C05_reading_unique), so "the same
+    message" is well defined.  [q] is pointer-free by construction: it is a concatenation of
+    [wire_of_labels], fixed fields and opaque data.
+
+    Not covered by a theorem: the translation of record boundaries
+    ([uncompress_with_previous_offset] at offsets other than 12), decided on every run by exact
+    comparison with an independent canonical encoder at every record boundary of every packet. *)
 From DV Require Import Model.Base Model.Parser Model.Header Model.Readers Model.Uncompress
   Spec.NameSpec Spec.PacketSpec Spec.RecordSpec Spec.PlainSpec
-  Proofs.Hoare Proofs.UncompressFrame Proofs.QuestionSpec Proofs.UncompressSpec.
+  Proofs.Hoare Proofs.UncompressFrame Proofs.QuestionSpec Proofs.UncompressSpec Proofs.PlainWf.
 
 Theorem C05_header_kept : forall (p : bytes) (off : nat) (out : bytes) (o : nat),
   uncompress_with_previous_offset p off = Ok (out, o) ->
@@ -33,9 +39,26 @@ Theorem C05_uncompress_is_plain_encoding : forall p v, bytes_ok p -> parse p = O
     records_at p (qe + 4) (map fst lxa) e1 /\ records_at p e1 (map fst lxn) e2 /\
     records_at p e2 (map fst lxr) (length p) /\
     Forall (fun rx => rdata_at p (fst rx) (snd rx)) (lxa ++ lxn ++ lxr) /\
+    hdr_ancount p = Ok (N.of_nat (length lxa)) /\ hdr_nscount p = Ok (N.of_nat (length lxn)) /\
+    hdr_arcount p = Ok (N.of_nat (length lxr)) /\
     uncompress p = Ok (firstn 12 p ++ plain_question qls qt CLASS_IN ++ concat (map plain_record (lxa ++ lxn ++ lxr))).
 Proof. exact uncompress_spec. Qed.
 Print Assumptions C05_uncompress_is_plain_encoding.
+
+Theorem C05_roundtrip : forall p v, bytes_ok p -> parse p = Ok v ->
+  exists q v' qls qt lxa lxn lxr lxa' lxn' lxr',
+    uncompress p = Ok q /\ bytes_ok q /\ parse q = Ok v' /\ uncompress q = Ok q /\
+    reading p qls qt lxa lxn lxr /\ reading q qls qt lxa' lxn' lxr' /\
+    map plain_record lxa' = map plain_record lxa /\ map plain_record lxn' = map plain_record lxn /\
+    map plain_record lxr' = map plain_record lxr.
+Proof. exact uncompress_roundtrip. Qed.
+Print Assumptions C05_roundtrip.
+
+Theorem C05_reading_unique : forall p qls qt lxa lxn lxr qls' qt' lxa' lxn' lxr',
+  reading p qls qt lxa lxn lxr -> reading p qls' qt' lxa' lxn' lxr' ->
+  qls = qls' /\ qt = qt' /\ lxa = lxa' /\ lxn = lxn' /\ lxr = lxr'.
+Proof. exact reading_fun. Qed.
+Print Assumptions C05_reading_unique.
 
 Example C05_sample :
   uncompress [0;7; 129;128; 0;1; 0;1; 0;0; 0;0; 7;101;120;97;109;112;108;101; 3;99;111;109; 0; 0;1; 0;1;
